@@ -243,15 +243,24 @@ Theorem slip32_ser_layout : forall enc v path cc raw, path_ok path -> length cc 
 Proof. exact Lemmas.Slip32.slip32_ser_layout. Qed.
 Print Assumptions slip32_ser_layout.
 
-(* "SLIP-32 parsing fails only with ValueError / Bech32ChecksumError" is FALSE of the code as written (F12,
-   counted under C14): a checksum-valid private string whose payload stops after the chain code raises IndexError. *)
-Theorem slip32_error_family_refuted : forall enc dec cc, bech_law enc dec -> length cc = 32%nat -> bytes_ok cc ->
-  exists s, slip32_deserialize dec s slip32_std = Err IndexError.
+(* SLIP-32 parsing fails only with ValueError or with what the Bech32 layer raised (ValueError /
+   Bech32ChecksumError there).  Before the repair of F12 in /repo this was false: a checksum-valid private
+   string whose payload stops after the chain code raised IndexError; it is now a ValueError. *)
+Theorem slip32_rejects_only_documented : forall enc dec v s e, bech_law enc dec ->
+  (forall hrp s d, dec hrp s = Ok d -> bytes_ok d) ->
+  slip32_deserialize dec s v = Err e -> e = ValueError \/ (exists hrp, dec hrp s = Err e).
 Proof.
-  intros enc dec cc [H1 H2] Lc Hc. exists (enc (snd slip32_std) (0 :: cc)).
-  exact (Lemmas.Slip32.slip32_short_payload_index_error enc dec H1 H2 slip32_std cc SerbipConstsOk.slip32_std_ok Lc Hc).
+  intros enc dec v s e [H1 H2] H3. exact (Lemmas.Slip32.slip32_errors dec H3 v s e).
 Qed.
-Print Assumptions slip32_error_family_refuted.
+Print Assumptions slip32_rejects_only_documented.
+
+Theorem slip32_short_payload_rejected : forall enc dec cc, bech_law enc dec -> length cc = 32%nat -> bytes_ok cc ->
+  slip32_deserialize dec (enc (snd slip32_std) (0 :: cc)) slip32_std = Err ValueError.
+Proof.
+  intros enc dec cc [H1 H2] Lc Hc.
+  exact (Lemmas.Slip32.slip32_short_payload_value_error enc dec H1 H2 slip32_std cc SerbipConstsOk.slip32_std_ok Lc Hc).
+Qed.
+Print Assumptions slip32_short_payload_rejected.
 
 (* ---- the premises are satisfiable: a concrete instance evaluated by the kernel
    (stand-in hash with 32-byte output; all 4-byte-metadata boundary values) *)
